@@ -33,6 +33,7 @@ type Reg struct {
 	Call                             *ast.CallExpr
 	Encl                             *ast.FuncDecl
 	Direct                           bool // the call is a top-level statement of its enclosing function
+	Always                           bool // the call dominates every return of the enclosing function
 	Err                              string
 	MetaLit                          *ast.CompositeLit
 	Name                             string
@@ -126,6 +127,7 @@ func BuildCensus(c *Ctx) *Census {
 						}
 					}
 				}
+				r.Always = callOnEveryPath(c, p, r.Encl, call)
 				parseReg(c, r)
 				cs.Regs = append(cs.Regs, r)
 				return true
@@ -140,6 +142,57 @@ func BuildCensus(c *Ctx) *Census {
 		return a.Call.Pos() < b.Call.Pos()
 	})
 	return cs
+}
+
+// declFunc returns the SSA function built for a FuncDecl (init functions are
+// renamed init#N by the builder, so they are found by syntax).
+func declFunc(c *Ctx, p *packages.Package, fd *ast.FuncDecl) *ssa.Function {
+	if fd == nil {
+		return nil
+	}
+	if obj, _ := p.TypesInfo.Defs[fd.Name].(*types.Func); obj != nil {
+		if fn := c.Prog.FuncValue(obj); fn != nil {
+			return fn
+		}
+	}
+	sp := c.Prog.Package(p.Types)
+	if sp == nil {
+		return nil
+	}
+	for _, m := range sp.Members {
+		if fn, ok := m.(*ssa.Function); ok && fn.Syntax() == fd {
+			return fn
+		}
+	}
+	return nil
+}
+
+// callOnEveryPath: the call is executed on every path from the entry of its
+// enclosing function to any of its returns.
+func callOnEveryPath(c *Ctx, p *packages.Package, fd *ast.FuncDecl, call *ast.CallExpr) bool {
+	fn := declFunc(c, p, fd)
+	if fn == nil {
+		return false
+	}
+	var instr ssa.Instruction
+	allInstrs(fn, func(in ssa.Instruction) {
+		if ci, ok := in.(ssa.CallInstruction); ok && in.Pos() == call.Lparen {
+			if _, isDefer := in.(*ssa.Defer); !isDefer {
+				if _, isGo := in.(*ssa.Go); !isGo {
+					instr = ci
+				}
+			}
+		}
+	})
+	if instr == nil {
+		return false
+	}
+	for _, ret := range realReturns(fn) {
+		if !instrDominates(instr, ret) {
+			return false
+		}
+	}
+	return true
 }
 
 func constString(info *types.Info, e ast.Expr) (string, bool) {
@@ -160,6 +213,26 @@ func constInt(info *types.Info, e ast.Expr) (int64, bool) {
 		return 0, false
 	}
 	return constant.Int64Val(v)
+}
+
+// literalText strips the formatting verbs from a format string and returns
+// the remaining non-blank literal text.
+func literalText(format string) string {
+	var b strings.Builder
+	for i := 0; i < len(format); i++ {
+		if format[i] != '%' {
+			b.WriteByte(format[i])
+			continue
+		}
+		i++
+		for i < len(format) && strings.IndexByte("+-# 0123456789.*[]", format[i]) >= 0 {
+			i++
+		}
+		if i < len(format) && format[i] == '%' {
+			b.WriteByte('%')
+		}
+	}
+	return strings.TrimSpace(b.String())
 }
 
 func unparen(e ast.Expr) ast.Expr {
@@ -247,6 +320,16 @@ func parseReg(c *Ctx, r *Reg) {
 	}
 	if e, ok := fields["Description"]; ok {
 		r.Desc, r.DescOK = constString(info, e)
+		if !r.DescOK {
+			// fmt.Sprintf(<constant format with literal text>, ...) is non-empty
+			if call, ok := unparen(e).(*ast.CallExpr); ok && len(call.Args) >= 1 {
+				if fn, _ := typeutil.Callee(info, call).(*types.Func); fn != nil && fn.FullName() == "fmt.Sprintf" {
+					if f, ok := constString(info, call.Args[0]); ok && literalText(f) != "" {
+						r.Desc, r.DescOK = f, true
+					}
+				}
+			}
+		}
 	}
 	if e, ok := fields["Citation"]; ok {
 		r.Citation, _ = constString(info, e)
